@@ -372,10 +372,17 @@ def c01_sessconc(work, prop, tier, seed):
     eps = [dict(free_episode(s, r), integ=True) for s, r in SESS_EPISODES]
     x = conc_run(work, vh, eps, "sess", "mem,dir", 6 if quick else 25, seed, burst=12 if quick else 60)
     log("session episodes: %d episodes, %d runs, %d rejected, %d hung (exec %.1fs, tlc %.1fs)" % (len(eps), x["runs"], len(x["rejected"]), x["hung"], x["exec"], x["tlc"]))
-    for f in x["v"]["fails"]:
+    # directed: the closing PUT stands before Close, the PATCH before Write, both are released (the second one 0 to 150
+    # microseconds after the first): the chunk arrives while Close is inside its critical section (rename, session removal)
+    directed = [dict(free_episode("s4", [("UpPut", "b4", alg), ("UpPatch", "b3")]), integ=True, order=[0, 0, 0, 0, 1, 1, 1, 200]) for alg in ("sha256", "sha512")]
+    y = conc_run(work, vh, directed, "sessdir", "dir,mem", 250 if quick else 1500, seed)
+    log("directed Close/Write races: %d runs, %d rejected, %d hung (exec %.1fs, tlc %.1fs)" % (y["runs"], len(y["rejected"]), y["hung"], y["exec"], y["tlc"]))
+    for f in x["v"]["fails"] + y["v"]["fails"]:
         raise Inconclusive("the sequential setup of a session episode was not accepted: %s" % json.dumps(f)[:600])
+    x["runs"] += y["runs"]
+    x["v"]["stats"]["events"] += y["v"]["stats"]["events"]
     violations, seen = [], set()
-    for e in x["rejected"]:
+    for e in x["rejected"] + y["rejected"]:
         ep = dict(e["episode"], burst=40, cold=e["cold"]) if e["burst"] else dict(e["episode"], order=e["played"])
         key = json.dumps([e["store"], e["burst"], e["episode"]["reqs"]], sort_keys=True)
         if key in seen:
@@ -390,7 +397,8 @@ def c01_sessconc(work, prop, tier, seed):
                                   ["acked"] if any(q["op"]["op"] == "UpPut" and q["resp"]["status"] == 201 and q["op"]["dig"] not in o["blobs"] for q in e["ops"]) else ["noerr"]}))
     return {"violations": violations, "events": x["v"]["stats"]["events"], "traces": x["runs"],
             "note": "%d episodes of requests racing on one upload session (closing PUT by a digest of the session's or of another algorithm, further chunks, status, "
-                    "cancellation), %d runs on mem and dir (seeded random interleavings of the session's store calls through the blocking tap, and ungated bursts), judged by "
+                    "cancellation), %d runs on mem and dir (seeded random interleavings of the session's store calls through the blocking tap, steps that release two pending store calls at once, ungated bursts, and "
+                    "directed runs that release the closing PUT's Close and a PATCH's Write together), judged by "
                     "TraceLin!ConcInteg: everything served afterwards hashes to its digest, a closing PUT acknowledged with 201 has made its digest retrievable, no panic, no hang" % (len(eps), x["runs"])}
 
 
